@@ -55,6 +55,53 @@ def _conjunct_of(node, test):
     return False
 
 
+_CFGS = {}
+
+
+def _nonempty_on_all_paths(f, site, name):
+    """Every path of f's control-flow graph (exception edges excluded) to the statement holding `site` passes a branch that establishes `name` non-empty
+    (the false branch of `if not name` / `if len(name) == 0`, the true branch of `if name` / `if len(name) > 0`), and `name` is not re-assigned (other than to itself)
+    between that branch and the site."""
+    from sa.cfg import CFG
+    if not isinstance(f, (ast.FunctionDef, ast.AsyncFunctionDef)) or not name.isidentifier():
+        return False
+    if id(f) not in _CFGS:
+        _CFGS[id(f)] = CFG(f, exc_edges=False)
+    c = _CFGS[id(f)]
+    st = site
+    while st is not None and not isinstance(st, ast.stmt):
+        st = getattr(st, '_parent', None)
+    targets = c.stmts_matching(lambda s: s is st)
+    if not targets:
+        return False
+    gates = []
+    for n in c.nodes:
+        if n.kind != 'branch' or not isinstance(n.stmt, (ast.If, ast.While)):
+            continue
+        t = unparse(n.stmt.test)
+        if (t in ('not %s' % name, 'len(%s) == 0' % name) and n.label == 'F') or (t in (name, 'len(%s) > 0' % name) and n.label == 'T'):
+            gates.append(n)
+    if not gates:
+        return False
+    if c.find_path([c.entry], targets, avoid=gates) is not None:
+        return False
+
+    def kills(s):
+        if isinstance(s, (ast.Assign, ast.AnnAssign, ast.AugAssign)):
+            tg = s.targets if isinstance(s, ast.Assign) else [s.target]
+            if any(isinstance(x, ast.Name) and x.id == name for t in tg for x in ast.walk(t)):
+                return not (isinstance(s, ast.Assign) and isinstance(s.value, ast.Name) and s.value.id == name)
+        if isinstance(s, (ast.For,)):
+            return any(isinstance(x, ast.Name) and x.id == name for x in ast.walk(s.target))
+        return False
+    knodes = c.stmts_matching(kills)
+    after_gate = c.reachable(gates)
+    for k in knodes:
+        if k in after_gate and c.find_path(list(k.succ), targets, avoid=gates) is not None:
+            return False
+    return True
+
+
 def partial_sites(f):
     """Repo-specific partial operations (frozen table; each pattern confirmed by reading)."""
     out = []
@@ -86,6 +133,8 @@ def partial_sites(f):
                 base = unparse(a.value) if isinstance(a, ast.Subscript) else unparse(a)
                 from sa.logic import implied_atoms as _ia
                 guarded = any((unparse(t) == 'len(%s) == 0' % base and p is False) or (unparse(t) in ('len(%s) > 0' % base, 'len(%s) >= 1' % base) and p is True) or (unparse(t) == base and p is True) for t, p in _ia(path_condition(n)))
+                if not guarded:
+                    guarded = _nonempty_on_all_paths(f, n, base)
                 if not guarded:
                     out.append(Site('TypeError', n, 'ord() of a slice that may be empty', f))
             elif isinstance(n.func, ast.Attribute) and n.func.attr == 'randrange':
@@ -142,8 +191,9 @@ def classify_loop(lp, func):
         return 'deadline', test
     if 'time_elapsed' in body_txt and 'timeout' in body_txt:
         return 'deadline', test
-    if test == 'self.unread_len > 0' and 'self.read_line()' in body_txt:
-        return 'buffer-drain', test
+    from sa.logic import implied_atoms as _ia2
+    if any(unparse(a) == 'self.unread_len > 0' and tr for a, tr in _ia2([(lp.test, True, 'while')])) and 'self.read_line()' in body_txt:
+        return 'buffer-drain', test      # runs only while unread buffered bytes remain, and every iteration consumes a line of them
     if test in ('self.unread_len < size',):
         return 'peer-driven (bounded by requested size, one recv timeout per iteration)', test
     if isinstance(lp.test, ast.Constant) and lp.test.value is True:
